@@ -17,11 +17,9 @@ LEVEL = "proof"
 
 
 def build_c(run):
-    tu_u = frontend.parse_file(CT.GSM_UTILS, "host")
-    tu_s = frontend.parse_file(CT.SYNC, "fw")
-    K.verify(run, ID, tu_u, CT.Fn2GsmTime)
-    K.verify(run, ID, tu_u, CT.GsmTime2Fn)
-    K.verify(run, ID, tu_s, CT.L1sTimeInc)
+    K.sect(run, "gsm_fn2gsmtime", lambda: K.verify(run, ID, frontend.parse_file(CT.GSM_UTILS, "host"), CT.Fn2GsmTime))
+    K.sect(run, "gsm_gsmtime2fn", lambda: K.verify(run, ID, frontend.parse_file(CT.GSM_UTILS, "host"), CT.GsmTime2Fn))
+    K.sect(run, "l1s_time_inc", lambda: K.verify(run, ID, frontend.parse_file(CT.SYNC, "fw"), CT.L1sTimeInc))
     # the callee contract used inside l1s_time_inc was verified on the host parse of gsm_utils.c; the same text is
     # what the firmware links (bundled libosmocore), its types have identical widths on ARM (uint32/16/8)
     run.assume("gsm_fn2gsmtime verified on the x86-64 parse of gsm_utils.c; its fixed-width types (uint32_t/uint16_t/uint8_t) "
@@ -77,7 +75,7 @@ def replay_c(payload):
     w = payload["inputs"]
     func = w.get("func")
     if func == "lemma":
-        return {"confirmed": False, "observed": "spec-level lemma", "expected": "n/a"}
+        return {"confirmed": False, "error": "spec-level lemma: there is no native run that could refute or confirm it", "observed": "spec-level lemma", "expected": "n/a"}
     H_ = G.HYPERFRAME
     outside = None
     if func == "gsm_fn2gsmtime" and not (0 <= w["fn"] < H_):
@@ -88,7 +86,7 @@ def replay_c(payload):
         outside = "fn / delta outside their ranges"
     if outside:
         # a replay only counts for inputs that satisfy the contract's pre-condition
-        return {"confirmed": False, "observed": "model input outside the pre-condition: %s" % outside, "expected": "n/a",
+        return {"confirmed": False, "error": "counter-model not executed: outside the pre-condition (%s)" % outside, "observed": "model input outside the pre-condition: %s" % outside, "expected": "n/a",
                 "precondition_met_by_model_input": False}
     if func == "gsm_fn2gsmtime":
         fn = w["fn"]
